@@ -549,6 +549,8 @@ Definition run (tag : Z) (args : list Z) : list Z :=
   | 82, _ => ANY
   | 83, _ => ANY
   | 90, _ => ANY
+  | 95, _ => ANY
+  | 96, _ => ANY
   | _, _ => BAD
   end.
 
@@ -593,6 +595,8 @@ Definition spec (tag : Z) (args : list Z) : list Z :=
   | 82, _ => repeat 1 10
   | 83, _ => repeat 1 5
   | 90, _ => [0]
+  | 95, _ => [1]
+  | 96, _ => [1]
   | _, _ => BAD
   end.
 
